@@ -10,14 +10,6 @@ import (
 // real library; symbolic arguments are reported as unsupported rather than approximated.
 func init() {
 	extraIntrinsics = append(extraIntrinsics, func(e *Engine) {
-		e.intr["internal/bytealg.CountString"] = func(e *Engine, st *State, cc *ssa.CallCommon, a []Value) Value {
-			s, ok := a[0].(StringVal).Concrete()
-			c := asTerm(a[1])
-			if !ok || !c.IsConst() {
-				unsupported("bytealg.CountString with symbolic arguments")
-			}
-			return ConstBV(uint64(strings.Count(s, string([]byte{byte(c.Val)}))), 64)
-		}
 		e.intr["internal/bytealg.IndexString"] = func(e *Engine, st *State, cc *ssa.CallCommon, a []Value) Value {
 			s, ok1 := a[0].(StringVal).Concrete()
 			sub, ok2 := a[1].(StringVal).Concrete()
